@@ -10,7 +10,9 @@ package server
 
 import (
 	"fmt"
+	"sync/atomic"
 	"testing"
+	"time"
 
 	"github.com/bio-routing/bio-rd/protocols/bgp/types"
 	"pgregory.net/rapid"
@@ -244,4 +246,125 @@ func TestVerifC18Groups(t *testing.T) {
 		c.ClassIf(differ, "forms_differ_"+mode)
 		c.ClassIf(s.addPath, "addpath")
 	})
+}
+
+// C18 with the real sender goroutine: a second batch of prefixes WITH THE SAME ATTRIBUTES is queued while the
+// sender is in the middle of writing the first batch (its first Write is parked on a harness gate). Once both
+// have returned and the queue is empty every prefix of both batches must have been announced exactly once.
+func TestVerifC18GatedSecondBatch(t *testing.T) {
+	c10InstallLogger()
+	rec := kit.NewRecorder(t, "C18", c18gRule+" [gated mode: one attribute set, batch A (1..20 prefixes) queued, real sender goroutine (1 ms aggregation) parked in its first Write, batch B (1..20 further prefixes, same attributes) added by another goroutine meanwhile. Non-trivial: the gate was reached]")
+	unjudged := 0
+	rapid.Check(t, func(t *rapid.T) {
+		c := rec.Case()
+		defer c.Done()
+		c10Log.take()
+		s := c10Sess{
+			fam:     rapid.SampledFrom([]int{c10FamV4, c10FamV4, c10FamV6, c10FamV6, c10FamV4MP}).Draw(t, "fam"),
+			kind:    rapid.IntRange(0, 3).Draw(t, "kind"),
+			addPath: rapid.Bool().Draw(t, "addpath"),
+			asn4:    rapid.IntRange(0, 2).Draw(t, "asn4") != 0,
+		}
+		a := c10GenSmallAttrs(t, s, 0)
+		nA := rapid.IntRange(1, 20).Draw(t, "nA")
+		nB := rapid.IntRange(1, 20).Draw(t, "nB")
+		pfxs := c18Prefixes(s.width(), nA+nB, rapid.Uint64().Draw(t, "pfx_seed"), rapid.IntRange(0, 3).Draw(t, "len_mode"))
+		if len(pfxs) < nA+nB {
+			nA, nB = len(pfxs)/2, len(pfxs)-len(pfxs)/2
+			if nA == 0 {
+				return
+			}
+		}
+		c.Logf("session %v attrs %v batch A %d prefixes, batch B %d prefixes", s, a, nA, nB)
+		rig := c10NewRig(s)
+		gate := &c10GateConn{Conn: rig.conn, reached: make(chan struct{}), release: make(chan struct{})}
+		rig.fsm.con = gate
+		for _, p := range pfxs[:nA] {
+			rig.rib.AddPath(c10Pfx(p), a.path(s))
+		}
+		if rig.queueLen() == 0 {
+			c.Class("attribute_set_not_exported_on_this_session")
+			return
+		}
+		atomic.StoreInt32(&gate.armed, 1)
+		rig.us.Start(time.Millisecond)
+		select {
+		case <-gate.reached:
+			c.Class("gate_reached")
+		case <-time.After(5 * time.Second):
+			rig.us.Destroy()
+			unjudged++
+			c.Class("gated_unjudged")
+			return
+		}
+		done := make(chan struct{})
+		go func() {
+			defer close(done)
+			for _, p := range pfxs[nA:] {
+				rig.rib.AddPath(c10Pfx(p), a.path(s))
+			}
+		}()
+		select { // sensitivity only
+		case <-done:
+			c.Class("second_batch_queued_during_the_write")
+		case <-time.After(10 * time.Millisecond):
+			c.Class("second_batch_waited_for_the_write")
+		}
+		close(gate.release)
+		select {
+		case <-done:
+		case <-time.After(10 * time.Second):
+			unjudged++
+			c.Class("gated_unjudged")
+			return
+		}
+		deadline := time.Now().Add(5 * time.Second)
+		for rig.queueLen() > 0 {
+			if time.Now().After(deadline) {
+				rig.us.Destroy()
+				unjudged++
+				c.Class("gated_unjudged")
+				return
+			}
+			time.Sleep(200 * time.Microsecond)
+		}
+		rig.us.Destroy() // returns when the sender goroutine has finished its current round
+		c.NonTrivial()
+		want := map[kit.Bits]string{}
+		for _, rt := range rig.rib.Dump() {
+			want[c10Bits(rt.Prefix())] = c10PathView(rt.Paths()[0], s)
+		}
+		peer := c10NewPeer(s)
+		seen := map[kit.Bits]int{}
+		var bad string
+		if msg := peer.consume(rig.conn.TakeWritten(), func(k c10Key, view string) {
+			seen[k.p]++
+			if w, ok := want[k.p]; bad == "" && (!ok || w != view) {
+				bad = fmt.Sprintf("%v announced with [%s], the Adj-RIB-Out holds [%s]", k, c18Short(view), c18Short(w))
+			}
+		}); msg != "" {
+			t.Fatalf("C18/gated %v: %s", s, msg)
+		}
+		if bad != "" {
+			t.Fatalf("C18/gated %v: %s", s, bad)
+		}
+		lost, twice := 0, 0
+		var ex kit.Bits
+		for p := range want {
+			switch {
+			case seen[p] == 0:
+				lost++
+				ex = p
+			case seen[p] > 1:
+				twice++
+				ex = p
+			}
+		}
+		if lost > 0 || twice > 0 {
+			t.Fatalf("C18/gated %v attrs %v: of %d+%d prefixes queued in two batches (the second while the sender was writing the first) %d were never announced and %d more than once (e.g. %v); sender log: %v", s, a, nA, nB, lost, twice, ex, c10Log.take())
+		}
+	})
+	if unjudged > 0 {
+		t.Logf("C18/gated: %d cases unjudged (a real-time deadline passed)", unjudged)
+	}
 }
